@@ -50,6 +50,21 @@ CLAIMED["C15"] = {
     "technique": "deterministic simulation of dealer/custodians/recoverer with RNG seam and share-channel fault injection; ground-truth oracle",
 }
 
+CLAIMED["C05"] = {
+    "category": "exploration",
+    "text": "One Tx object per run and a generated history of digest queries (original algorithm, BIP143, BIP341/342; direct methods and the dispatcher; hash types 0,1,2,3,0x81,0x82,0x83; eight input kinds, annex on/off) interleaved with edits of every committed and uncommitted field, reverts, clone and re-parse. Every query is compared with an independent implementation of the three specifications on a plain-data mirror of the current state (H1, refinement) and with the same query on a freshly re-parsed copy (H2, history independence).",
+    "design_ref": "DESIGN.md 5.3, 6 (C05)",
+    "note": "Trusted: CPython, hashlib, ref/sighash.py + ref/txmodel.py (self-tested on the BIP143 digests for all six hash types, the BIP341 wallet vectors and published signatures). Coverage is sampled, not exhaustive; OP_CODESEPARATOR and non-standard script codes are not generated.",
+    "technique": "deterministic simulation of an operation history on one object; step-by-step refinement against a reference model",
+}
+CLAIMED["C06"] = {
+    "category": "exploration",
+    "text": "History/state clauses of C06 only: spends of all eight signable output types are built and signed through the library's helpers inside generated histories of sign / verify / edit / revert / clone / re-parse. verify_input must be True exactly when the input still carries its signature and the current reference digest equals the signed one, stable under repetition and on a re-parsed copy (H3); every fresh spend verifies and its signatures verify under an independent ECDSA/BIP340 verifier over the reference digest (H4).",
+    "design_ref": "DESIGN.md 5.3, 6 (C06)",
+    "note": "Trusted: ref/secp.py, ref/sighash.py. NOT covered: the property's forgery catalogue (crafted scriptSigs, foreign keys, dropped/reordered signatures, annex-only witnesses...) is pure input mutation without history or fault and is not simulated; quorums are limited to n <= 3 keys for speed.",
+    "technique": "deterministic simulation of sign/edit/verify histories on one object; verdict oracle from a reference digest model",
+}
+
 PENDING = {}
 
 
